@@ -30,7 +30,9 @@ WRAPPED = ["[idle]", "[section Intro]", "[lyric Oh]", "[]", "[x]", "(x)", "{x}",
            "(section a)", "{lyric b}", " x ", "\tx\t", "[x", "x]"]
 MARKUP_ODDITIES = ["<i>", "</i>", "<color=#ff0000>", "<", ">", "<>", "1 < 2 > 1", "&amp;", "&lt;", "%s", "%d%%", "{0}",
                    "{}", "\\n", "\\t", "\\", "$1", "(.*)", "[a-z]+", "^$", "\\d", "../", "a/b", "C:\\x", "NULL", "None",
-                   "true", "0x1F", "1e5", "+5", "-0", "#", ";", "//", "'", "`", "|", "*", "?", "!", "~", "@"]
+                   "true", "0x1F", "1e5", "+5", "-0", "#", ";", "//", "'", "`", "|", "*", "?", "!", "~", "@",
+                   "/*", "*/", "--", "${x}", "%(x)s", "<!--", "-->", "\\r", "\\x41", "a//b", "http://x", "#x", ";x", "x;",
+                   "x#", "\\\\", "x\\"]
 
 # ------------------------------------------------------------------------------------------------
 # tempo maps
@@ -150,11 +152,25 @@ def interesting_ticks(tm: TempoModel, max_tick: int) -> list[int]:
     return sorted(out)
 
 
+def grid_ticks(tm: TempoModel, max_tick: int) -> list[int]:
+    """Ticks on the musical grid: whole beats, whole 4/4 (and 3/4, 6/8) measures, simple fractions of a
+    beat, also counted from each of the first tempo changes (positions with a meaning to editors)."""
+    r = tm.res
+    out = set()
+    for base in [0] + tm.ticks[1:4]:
+        for k in (1, 2, 3, 4, 8, 16, 64):
+            for unit in (r, 4 * r, 3 * r, r // 2, r // 3, r // 4, 6 * r // 2):
+                t = base + k * unit
+                if 0 <= t <= max_tick:
+                    out.add(t)
+    return sorted(out) or [0]
+
+
 def tick_strategy(tm: TempoModel, max_tick: int):
     cands = interesting_ticks(tm, max_tick)
     near = min(max_tick, tm.ticks[-1] + 8 * tm.res)
     return st.one_of(st.sampled_from(cands), st.sampled_from(cands), st.integers(0, near),
-                     st.integers(0, max_tick))
+                     st.integers(0, max_tick), st.sampled_from(grid_ticks(tm, max_tick)))
 
 
 # ------------------------------------------------------------------------------------------------
